@@ -334,16 +334,21 @@ def rendered_roles(cfg, R, ar):
     tagged names and reasons.  Every tagged name must come out, on one line with all its reasons, inside the section whose
     heading names its role (Unsupported/Removed or Notable; zones, links or policies), the count in that heading must be
     the number of names, and no tag may come out under a heading of another role."""
-    from .genrender import Rendering, tagged_db, sections
-    want = {'ZoneInfosGenerator.generate_infos_h': ['removed_zones', 'notable_zones', 'removed_links', 'notable_links'],
-            'ZonePoliciesGenerator.generate_policies_h': ['removed_policies', 'notable_policies']}
-    rd = Rendering(cfg)
+    from .genrender import generate_files, tagged_db, sections
+    from .pyeval import Raised
+    want = {'ZoneInfosGenerator.generate_infos_h': ('zone_infos.h', ['removed_zones', 'notable_zones', 'removed_links', 'notable_links']),
+            'ZonePoliciesGenerator.generate_policies_h': ('zone_policies.h', ['removed_policies', 'notable_policies'])}
     db = tagged_db('extended')
-    for fn_name, attrs in want.items():
-        f = ar.fn(fn_name)
-        cls, meth = fn_name.split('.')
-        text = rd.render(cls, meth, db)
-        secs = sections(text)
+    gf = ar.fn('ArduinoGenerator.generate_files')
+    try:
+        files = generate_files(cfg, 'arduino', db)
+    except Raised as r_:
+        raise AnalysisError('%s: generating the files of the tagged database raises %s' % (gf.loc, r_.what))
+    for fn_name, (fname, attrs) in want.items():
+        f = ar.funcs.get(fn_name) or gf
+        if fname not in files:
+            raise AnalysisError('%s: ArduinoGenerator.generate_files() writes %s, not %s' % (gf.loc, sorted(files), fname))
+        secs = sections(files[fname])
         for attr in attrs:
             c = 'argenerator.%s:%s' % (fn_name, attr)
             R.instance('R4', c, f.loc)
